@@ -100,3 +100,8 @@ Proof.
       apply IH; [assumption|]. rewrite N.pow_add_r. simpl (256 ^ 1). nia. }
   specialize (G l 0 0 Hl). simpl in G. apply G. lia.
 Qed.
+
+Lemma frev_rev {A} (l : list A) : frev l = rev l.
+Proof. unfold frev. symmetry. apply rev_alt. Qed.
+Lemma rstrip_by_rev p s : rstrip_by p s = rev (lstrip_by p (rev s)).
+Proof. unfold rstrip_by. rewrite !frev_rev. reflexivity. Qed.
